@@ -172,7 +172,7 @@ func gen(c *core.Ctx) error {
 		for _, pb := range pres {
 			for variant := 0; variant < 6; variant++ {
 				k++
-				su := ss.Setup{Kind: "keyed", Key: key, PreAB: pa, PreBA: pb}
+				su := ss.Setup{Kind: "keyed", Key: key, PreAB: pa, PreBA: pb, ReadMax: []int{0, 2, 0, 11}[len(pa)%4], Ctx: len(pb)%2 == 1}
 				var steps []ss.Step
 				api := apis[k%3]
 				switch variant {
@@ -407,7 +407,7 @@ func randomHistories(c *core.Ctx) {
 		for i := 0; i < c.Rng.Intn(3); i++ {
 			pb = append(pb, ss.Pay(c.Rng.Intn(200), c.Rng.Intn(3)*c.Rng.Intn(20)))
 		}
-		su := ss.Setup{Kind: "keyed", Key: key, PreAB: pa, PreBA: pb}
+		su := ss.Setup{Kind: "keyed", Key: key, PreAB: pa, PreBA: pb, ReadMax: []int{0, 2, 0, 11}[len(pa)%4], Ctx: len(pb)%2 == 1}
 		var steps []ss.Step
 		on := true
 		for i := 0; i < 3+c.Rng.Intn(8); i++ {
